@@ -153,10 +153,14 @@ def run_nasty(extra=None, tag="nasty"):
     texts = dict(NASTY)
     if extra:
         texts.update(extra)
+    # a long file that ends in a deep nest: whatever the parser remembers must keep working however much came before
+    texts["long-file-then-deep-nest"] = "".join("let v%d = { 'a num, 'b [str] };\n" % i for i in range(8000)) + \
+        "let z = " + "{ 'n " * 12 + "num" + " }" * 12 + ";\nres / on get -> <z>;\n"
     crashes, detail = [], {}
     for name, text in texts.items():
-        r = run_cli(cli, {"main.oal": text}, workdir=os.path.join(rdir, name), timeout=30)
-        w = run_wasm(drv, text, timeout=30)
+        big = len(text) > 100000
+        r = run_cli(cli, {"main.oal": text}, workdir=os.path.join(rdir, name), timeout=90 if big else 30)
+        w = run_wasm(drv, text, timeout=90 if big else 30)
         detail[name] = {"cli_rc": r["rc"], "wasm_rc": w["rc"], "wasm_status": w["status"]}
         if crash_of(r):
             crashes.append("oal-cli on '%s': exit %s (%s)" % (name, r["rc"], (re.search(r"panicked at [^\n]+|overflowed its stack|TIMEOUT", r["out"]) or [""])[0] if True else ""))
@@ -265,6 +269,23 @@ def check():
     for b in obad:
         if b[1] not in bad:
             bad.append(b[1])
+
+    # "cannot hang" for nested input rests on the parser's memo table: every result is remembered while caching is on
+    # (shared with C12) - a table that stops storing makes the parser exponential in the nesting depth
+    try:
+        import props.c12 as c12
+        MMm = mirlib.module("oal-model")
+        fsm = (MMm.one(r"^(grammar::)?memoize$"), MMm.one(r"grammar::<impl[^>]*>::lookup$"), MMm.one(r"grammar::<impl[^>]*>::cache$"),
+               MMm.one(r"grammar::<impl[^>]*>::without_cache$"), MMm.sel("grammar", "new", ret=r"grammar::Context<"))
+
+        def memo_structural(name, ok, why=None):
+            o.query(name, "mirsym/structural", "unsat" if ok else "violated", 0)
+            if not ok and (why or name) not in bad:
+                bad.append(why or name)
+            return ok
+        c12.memo_lemmas(o, L, S, E, MMm, MS, fsm, memo_structural, on_sat, bad)
+    except KeyError as exn:
+        o.inconc("memo lemmas: %s" % str(exn)[:160])
 
     # tokenize: a number-literal token is only ever stored with a number (the compiler's literal_tag / eval_literal rely on it)
     try:
